@@ -47,7 +47,7 @@ def _map_spec():
 def _sim_spec(draw, tier):
     n = draw(st.integers(0, 10))
     if draw(st.integers(0, 14)) == 0:
-        n = draw(st.sampled_from([63, 64, 65, 70, 127, 128, 130]))     # beyond one 64-bit word of events
+        n = draw(st.sampled_from([63, 64, 65, 70, 127, 128, 130, 200, 300]))     # beyond one 64-bit word of events
     modes = [draw(st.sampled_from(MODES)) for _ in range(n)]
     order = draw(st.lists(st.integers(0, max(n - 1, 0)), min_size=0, max_size=2 * n)) if n else []
     m = (1 << n) - 1
